@@ -1059,6 +1059,63 @@ fn systematic_cl(em: &mut Emitter) {
     }
 }
 
+/// back-pressure family (both tiers): buffer_limit far below the body size, the upstream ALWAYS
+/// ready (no Pending between chunks), transport chunks of every relevant size relative to the
+/// limit, so that a chunk has to be split (left-over stays pending), the parser consumes, and on
+/// the next poll the left-over is appended and further ready chunks follow in the SAME
+/// poll_stream call.  Fields without CR in the content are handed out as the whole buffer per
+/// Field poll: a data chunk longer than buffer_limit == the parser buffered more than its limit
+/// (oracle clause 2).  Also Content-Length parts (read_max path) and a dropped handle.
+fn systematic_limit(em: &mut Emitter) {
+    let mk = |name: &str, content: &[u8], cl: bool| FieldT { name: name.into(), cl, ct: false, content: hex(content) };
+    let long: Vec<u8> = (0..150u32).map(|i| b'a' + (i % 23) as u8).collect();
+    let mut with_cr = long[..90].to_vec();
+    with_cr[40] = b'\r';
+    with_cr[41] = b'\n';
+    with_cr[77] = b'\r';
+    let bases: Vec<(&str, usize, Vec<FieldT>)> = vec![
+        ("ab", 32, vec![mk("f", &long, false), mk("g", b"y", false)]),
+        ("ab", 16, vec![mk("f", &long[..70], true), mk("g", &with_cr, false)]),
+    ];
+    let mut idx = 0usize;
+    for (boundary, limit, truth) in &bases {
+        let full = render(boundary, b"", truth);
+        // the header block of a part must fit (else Overflow is the correct answer): the first
+        // chunk carries the first boundary line + headers only when limit allows; otherwise the
+        // limit is raised to the largest header block + 1 (hmax excludes the closing CRLF)
+        let hmax = truth.iter().map(|f| render_headers(f).len()).max().unwrap_or(0);
+        let limit = (*limit).max(hmax + 3).max(boundary.len() + 6);
+        let sizes: Vec<usize> = vec![1, 2, 3, 5, 7, 11, 13, 15, limit / 2, limit / 2 + 1, limit - 2, limit - 1, limit, limit + 1, limit + 12, 2 * limit - 1, 2 * limit + 3, 96];
+        for k in sizes {
+            if k == 0 {
+                continue;
+            }
+            let script: Vec<Ev> = full.chunks(k).map(|c| Ev::Chunk(c.to_vec())).collect();
+            let consume = if idx % 7 == 6 { Some(1) } else { None };
+            let c = Case { boundary: boundary.to_string(), mixed: false, limit: Some(limit), script: show_script(&script), consume, kind: "valid".into(), preamble: String::new(), truth: truth.clone() };
+            emit_case(em, format!("sys-limit-{idx}"), c);
+            idx += 1;
+        }
+        // the shape of the crate's own limit tests turned round: headers, then chunks that do not
+        // add up to the limit (split + left-over + ready successor)
+        let head = find(&full, b"\r\n\r\n").unwrap() + 4;
+        for (a, b) in [(limit - 2, limit - 2), (limit - 13, limit + 5), (limit, 3)] {
+            let mut script = vec![Ev::Chunk(full[..head].to_vec())];
+            let mut at = head;
+            let mut flip = false;
+            while at < full.len() {
+                let k = (if flip { b } else { a }).max(1).min(full.len() - at);
+                script.push(Ev::Chunk(full[at..at + k].to_vec()));
+                at += k;
+                flip = !flip;
+            }
+            let c = Case { boundary: boundary.to_string(), mixed: false, limit: Some(limit), script: show_script(&script), consume: None, kind: "valid".into(), preamble: String::new(), truth: truth.clone() };
+            emit_case(em, format!("sys-limit-{idx}"), c);
+            idx += 1;
+        }
+    }
+}
+
 fn main() {
     let args = parse_args();
     let mut em = Emitter::default();
@@ -1072,6 +1129,7 @@ fn main() {
         if args.n.is_none() {
             systematic(&mut em, args.thorough());
             systematic_cl(&mut em);
+            systematic_limit(&mut em);
         }
         let mut rng = Rng::new(args.seed);
         let n = args.n.unwrap_or(if args.thorough() { 3_000 } else { 400 });
